@@ -18,10 +18,12 @@ import (
 	"go.brendoncarroll.net/p2p/s/memswarm"
 	"go.brendoncarroll.net/p2p/s/multiswarm"
 	"go.brendoncarroll.net/p2p/s/p2pkeswarm"
+	"go.brendoncarroll.net/p2p/s/udpswarm"
 
 	"verifmc/evid"
 	"verifmc/explore"
 	"verifmc/hx"
+	"verifmc/netrows"
 	"verifmc/stacks"
 	"verifmc/vrt"
 )
@@ -224,6 +226,34 @@ func configs(thorough bool) []config {
 			})
 		}
 	}
+	// the real udpswarm over the virtual network (package net shimmed by vnet)
+	udpPair := func() (a, b *udpswarm.Swarm) {
+		a, err := udpswarm.New("127.0.0.1:0")
+		if err != nil {
+			panic(err)
+		}
+		b, err = udpswarm.New("127.0.0.1:0")
+		if err != nil {
+			panic(err)
+		}
+		return a, b
+	}
+	add("udp", func() *endpoint {
+		a, b := udpPair()
+		return pair[udpswarm.Addr](a, b, b.LocalAddrs()[0])
+	})
+	add("p2pke(udp)", func() *endpoint {
+		ua, ub := udpPair()
+		a := p2pkeswarm.New[udpswarm.Addr](ua, stacks.TestKey(0))
+		b := p2pkeswarm.New[udpswarm.Addr](ub, stacks.TestKey(1))
+		return pair[p2pkeswarm.Addr[udpswarm.Addr]](a, b, b.LocalAddrs()[0])
+	})
+	add("frag(udp,mtu=4000)", func() *endpoint {
+		ua, ub := udpPair()
+		e := pair[udpswarm.Addr](fragswarm.New[udpswarm.Addr](ua, 4000), fragswarm.New[udpswarm.Addr](ub, 4000), ub.LocalAddrs()[0])
+		e.parts, e.partMax = []int{ua.MTU() - fragswarm.Overhead}, []int{255}
+		return e
+	})
 	// nestings
 	add("frag(p2pke(mem(mtu=576)),mtu=2000)", func() *endpoint {
 		_, sw, _ := memPair(576)
@@ -434,5 +464,9 @@ func main() {
 	explore.Main(run, scs, evid.Pick(run, 150*time.Second, 15*time.Minute))
 	run.Set("grid_configurations", len(scs))
 	run.Assume("stacks whose handshake packets do not fit the inner MTU are not configured (the statement is about payload size); UDP/QUIC/SSH MTU handling is outside the scheduler")
+	// free-running rows for sshswarm / quicswarm (outside the controlled scheduler)
+	if netrows.Run(run) {
+		run.Assume("sshswarm and quicswarm rows run free on loopback (third-party goroutines and sockets): every listed call configuration is executed once under the runtime's own schedule; waits of 20-30 s only give up, the only timing verdict is 'has not returned long after its deadline'")
+	}
 	run.Finish()
 }
